@@ -11,6 +11,7 @@ import copy
 
 from .. import envmode
 from ..kernel import Violation, Discard, SimCrash, feq, canon, cjson
+from ..kernel import quiet_print as _quiet_print
 from ..gen import AA, gen_seq
 from ..simfs import SimFS
 from ..minimise import list_candidates
@@ -426,7 +427,7 @@ def execute(plan, ctx):
     envmode.apply(plan.get("env"), ctx)
     import localcider.backend.seqfileparser as sfp
     import localcider.sequenceParameters as spmod
-    spmod.print = lambda *a, **k: None
+    spmod.print = _quiet_print
     fs = SimFS(ctx, prefix="dst_c14_")
     sfp.open = fs.open
     steps = plan.get("steps")
